@@ -249,10 +249,23 @@ def pool(workers: int | None = None) -> ProcessPoolExecutor:
 
 
 def pmap(fn, items, chunksize: int = 8):
+    """Map in the process pool.  A pool whose child was killed (memory pressure on a loaded machine) is
+    rebuilt with fewer workers and the batch is run again; the last attempt runs in this process."""
+    global _POOL
+    from concurrent.futures.process import BrokenProcessPool
     items = list(items)
     if len(items) <= 4:
         return [fn(x) for x in items]
-    return list(pool().map(fn, items, chunksize=chunksize))
+    for workers in (None, 6, 2):
+        try:
+            return list(pool(workers).map(fn, items, chunksize=chunksize))
+        except BrokenProcessPool:
+            try:
+                _POOL.shutdown(wait=False, cancel_futures=True)
+            except Exception:
+                pass
+            _POOL = None
+    return [fn(x) for x in items]
 
 
 def main(argv=None) -> int:
